@@ -168,7 +168,9 @@ Lemma py_float_DF : forall w x y, conv_leaf (DF w) x = Ok y -> exists b, y = PFl
 Proof.
   intros w x y. unfold conv_leaf. destruct x; cbn [py_float bind]; intros H; try discriminate;
     try (inversion H; eexists; reflexivity).
-  destruct (f_of_Z z); cbn [bind] in H; [inversion H; eexists; reflexivity | discriminate].
+  - destruct (f_of_Z z); cbn [bind] in H; [inversion H; eexists; reflexivity | discriminate].
+  - destruct (parse_float_text s); cbn [bind] in H; [inversion H; eexists; reflexivity | discriminate].
+  - destruct (parse_float_text s); cbn [bind] in H; [inversion H; eexists; reflexivity | discriminate].
 Qed.
 
 Lemma conv_leaf_ok : forall dt x y, conv_leaf dt x = Ok y -> fits dt y = true /\ (y = x \/ is_leafval y = true).
@@ -316,7 +318,9 @@ Definition strconv (sl : bool) (x : pyval) : pyval :=
 Definition assignG (q fixed : bool) (cap : nat) (e : etype) (x1 : pyval) : res pyval :=
   match x1 with
   | PBytes s => if fast_bytesG e && lenG fixed (length s) cap
-                then chkG q e (map (fun c => PInt (Z.of_N (c mod 256))) s) else slowG q fixed cap e x1
+                then chkG q e (map (fun c => PInt (Z.of_N (c mod 256))) s)
+                else if t_text_guard TG then Raise ValueError else slowG q fixed cap e x1
+  | PStr _ => if t_text_guard TG then Raise ValueError else slowG q fixed cap e x1
   | PArr dt' l => if dtype_eqb dt' (dtype_of PW e) && lenG fixed (length l) cap then chkG q e l else slowG q fixed cap e x1
   | _ => slowG q fixed cap e x1
   end.
@@ -420,8 +424,10 @@ Proof.
   intros strict q db fixed cap sl e x v S W H. rewrite assign_array_gen in H.
   assert (W1 : wfv PW db strict (strconv sl x) = true).
   { unfold strconv. destruct sl; auto. destruct x; auto. }
-  destruct (strconv sl x) as [| | | | |s| | |dt' l|] eqn:X; cbn [assignG] in H; try (eapply slowG_ok; eauto; fail).
-  - destruct (fast_bytesG e && lenG fixed (length s) cap) eqn:C; [|eapply slowG_ok; eauto].
+  destruct (strconv sl x) as [| | | | |s| | |dt' l|] eqn:X; cbn [assignG] in H; try (eapply slowG_ok; eauto; fail);
+    try (destruct (t_text_guard TG); [discriminate|]; eapply slowG_ok; eauto; fail).
+  - destruct (fast_bytesG e && lenG fixed (length s) cap) eqn:C;
+      [|destruct (t_text_guard TG); [discriminate|]; eapply slowG_ok; eauto].
     apply andb_true_iff in C. destruct C as [Cb Cl].
     destruct e as [[|w|w|w]|t]; cbn [fast_bytesG] in Cb; try discriminate.
     eapply chkG_ok; [exact S| | | |exact H].
@@ -499,8 +505,10 @@ Proof.
   - rewrite set_comp_gen in H. destruct x; try discriminate.
     destruct (Nat.eqb tid t); inversion H; reflexivity.
   - rewrite assign_array_gen in H.
-    destruct (strconv sl x) as [| | | | |s| | |dt' l|]; cbn [assignG] in H; try (eapply slowG_not_none; eauto; fail).
-    + destruct (fast_bytesG e && lenG fixed (length s) cap); [eapply chkG_not_none|eapply slowG_not_none]; eauto.
+    destruct (strconv sl x) as [| | | | |s| | |dt' l|]; cbn [assignG] in H; try (eapply slowG_not_none; eauto; fail);
+      try (destruct (t_text_guard TG); [discriminate|]; eapply slowG_not_none; eauto; fail).
+    + destruct (fast_bytesG e && lenG fixed (length s) cap); [eapply chkG_not_none; eauto|].
+      destruct (t_text_guard TG); [discriminate|]. eapply slowG_not_none; eauto.
     + destruct (dtype_eqb dt' (dtype_of PW e) && lenG fixed (length l) cap); [eapply chkG_not_none|eapply slowG_not_none]; eauto.
 Qed.
 
